@@ -465,6 +465,23 @@ def _replay(chk, ctx, hh) -> None:
         chk.ob('C16.pairs', f'state_actions:{q.func.attr}', ok and same_args, ctx.loc(sa, node),
                'a repair step performs exactly the operation its availability test names, with the arguments that were tested (or unknown cards)',
                got=[stmt_text(c) for c in calls], want=want)
+    # every line taken from the history is parsed, at once: nothing stands between taking it and handing it to parse_action, and a
+    # line is yielded from one place (what is yielded is what was applied - commentary lines are operations too)
+    takes = [(n, b) for n in ast.walk(sa.node) for fld in ('body', 'orelse') for b in [getattr(n, fld, None)] if isinstance(b, list)]
+    ok_take = False
+    for _, block in takes:
+        for k, st in enumerate(block):
+            if isinstance(st, ast.Assign) and isinstance(st.value, ast.Call) and isinstance(st.value.func, ast.Attribute) \
+                    and st.value.func.attr == 'popleft' and isinstance(st.targets[0], ast.Name):
+                nxt = block[k + 1] if k + 1 < len(block) else None
+                ok_take = isinstance(nxt, ast.Try) and any(
+                    isinstance(c, ast.Call) and isinstance(c.func, ast.Name) and c.func.id == 'parse_action' and len(c.args) >= 2
+                    and isinstance(c.args[0], ast.Name) and c.args[0].id == sv and isinstance(c.args[1], ast.Name) and c.args[1].id == st.targets[0].id
+                    for b in nxt.body for c in ast.walk(b))
+    n_yield = sum(isinstance(x, (ast.Yield, ast.YieldFrom)) for x in ast.walk(sa.node))
+    chk.ob('C16.pairs', 'state_actions:every_line_parsed', ok_take and n_yield == 2, sa.loc,
+           'a line taken from the history is handed to parse_action at once, and state-action pairs are yielded from one place (after the line '
+           'was applied or a repair step was made)', got=f'parsed right after being taken: {ok_take}; yields: {n_yield}')
     # the documented repair: which omitted step is filled in first, and under which extra conditions (a free check only while
     # actions remain, a fold only while actions remain, a show only while the hand is running)
     want_chain = [
